@@ -652,6 +652,57 @@ func main() {
 			w.Tally("carriers")
 		})
 	}
+	// Extract into a context that already carries a span context: a valid header must give exactly what it
+	// gives on a fresh context (remote, header's flags and tracestate) whatever the parent holds - also when the
+	// parent has the SAME ids -, and an absent / invalid header must leave the parent's span context in place.
+	nInto := o.Count(300, 6000)
+	for i := 0; i < nInto; i++ {
+		tp, ts := genTraceParent(r), genTraceState(r)
+		if r.Chance(1, 5) {
+			tp = mutate(r, tp)
+		}
+		desc := map[string]any{"op": "extract-into", "traceparent": tp, "tracestate": ts}
+		guard(desc, func() {
+			ref := doExtract(tp, ts)
+			var ptid trace.TraceID
+			var psid trace.SpanID
+			for j := range ptid {
+				ptid[j] = byte(r.Intn(255) + 1)
+			}
+			for j := range psid {
+				psid[j] = byte(r.Intn(255) + 1)
+			}
+			if ref.Some && r.Chance(1, 2) { // the parent already has the header's ids (an earlier hop of the same trace)
+				copy(ptid[:], ref.TID)
+				copy(psid[:], ref.SID)
+			}
+			pts, _ := trace.ParseTraceState(vgen.Pick(r, []string{"", "a=1", "old=state,x=y"}))
+			parent := trace.NewSpanContext(trace.SpanContextConfig{TraceID: ptid, SpanID: psid,
+				TraceFlags: trace.TraceFlags(vgen.Pick(r, []byte{0, 1, 9})), TraceState: pts, Remote: r.Bool()})
+			desc["parent"] = fmt.Sprintf("%s-%s-%02x remote=%v ts=%q", ptid, psid, byte(parent.TraceFlags()), parent.IsRemote(), pts.String())
+			pctx := trace.ContextWithSpanContext(context.Background(), parent)
+			c := propagation.MapCarrier{}
+			if tp != "" {
+				c["traceparent"] = tp
+			}
+			if ts != "" {
+				c["tracestate"] = ts
+			}
+			got := trace.SpanContextFromContext(prop.Extract(pctx, c))
+			if !ref.Some {
+				if !got.Equal(parent) {
+					w.Violation("Extract of an absent/invalid header replaced the span context the context already carried", desc)
+				}
+				return
+			}
+			gt, gs := got.TraceID(), got.SpanID()
+			if !bytes.Equal(gt[:], ref.TID) || !bytes.Equal(gs[:], ref.SID) || byte(got.TraceFlags()) != ref.Flags ||
+				!got.IsRemote() || got.TraceState().String() != ref.TSStr {
+				w.Violation("Extract into a context that already carries a span context differs from Extract into a fresh context", desc)
+			}
+			w.Tally("extract-into")
+		})
+	}
 	if err := w.Flush(); err != nil {
 		fmt.Fprintln(os.Stderr, err)
 		os.Exit(2)
